@@ -1,6 +1,8 @@
 // C01 / C02 / C05 / C19 on the three body framings, driven through the real BodyReader over the
 // scripted transport (BaseStream::Verif).
 
+include!("hmacro.rs");
+
 mod verif_body {
     use super::*;
     use crate::verif::{ch, drive, Case, Ch, Fault, Script, Scripted, Seg};
@@ -69,27 +71,19 @@ mod verif_body {
             c01_chunked!($name, $shape, $garbage, $seg, $cap, $rd, false);
         };
         ($name:ident, $shape:expr, $garbage:expr, $seg:expr, $cap:expr, $rd:expr, $upper:expr) => {
-            #[kani::proof]
-            #[kani::unwind(40)]
-            #[kani::stub(core::slice::memchr::memchr, crate::verif::memchr_naive)]
-            #[kani::stub(core::str::from_utf8, crate::verif::from_utf8_model)]
-            fn $name() {
+            verif_harness!($name, 40, {
                 let shape: &[Ch] = &$shape;
                 let case = Case::chunked(shape, $garbage, $upper);
                 c01_case(Framing::Chunked, &case, $seg, $cap, $rd);
-            }
+            });
         };
     }
     macro_rules! c01_raw {
         ($name:ident, $framing:expr, $n:expr, $garbage:expr, $seg:expr, $cap:expr, $rd:expr) => {
-            #[kani::proof]
-            #[kani::unwind(40)]
-            #[kani::stub(core::slice::memchr::memchr, crate::verif::memchr_naive)]
-            #[kani::stub(core::str::from_utf8, crate::verif::from_utf8_model)]
-            fn $name() {
+            verif_harness!($name, 40, {
                 let case = Case::raw($n, $garbage);
                 c01_case($framing, &case, $seg, $cap, $rd);
-            }
+            });
         };
     }
 
@@ -117,15 +111,114 @@ mod verif_body {
     c01_raw!(c01_q_close_n6_split_rd3, Framing::Close, 6, 0, Seg::SplitAt(2), 4, 3);
     c01_raw!(c01_q_close_n5_rd1, Framing::Close, 5, 0, Seg::Max(2), 1, 1);
 
-    #[kani::proof]
-    #[kani::unwind(40)]
-    #[kani::stub(core::slice::memchr::memchr, crate::verif::memchr_naive)]
-    #[kani::stub(core::str::from_utf8, crate::verif::from_utf8_model)]
-    fn c01_qtwin_chunked() {
+    verif_harness!(c01_qtwin_chunked, 40, {
         let case = Case::chunked(&[ch(4), ch(1)], 0, false);
         c01_case(Framing::Chunked, &case, Seg::OneByte, 8, 2);
         assert!(false, "twin: must be reported as FAILURE");
-    }
+    });
 
     include!("gen_c01_thorough.rs");
+}
+
+// ----------------------------------------------------------------------------------------- C02
+mod verif_body_c02 {
+    use super::verif_body::*;
+    use super::*;
+    use crate::verif::{ch, drive, Case, Ch, Drive, Fault, Script, Scripted, Seg};
+
+    fn drive_framing(framing: Framing, script: &mut Script, case: &Case, cap: usize, rd: usize, extra: usize) -> Drive {
+        match framing {
+            Framing::Chunked => {
+                let mut r = chunked_reader(script.handle(), cap);
+                let d = drive(&mut r, case, rd, case.pay_len + 3 + extra, extra);
+                std::mem::forget(r);
+                d
+            }
+            Framing::Length => {
+                let mut r = length_reader(script.handle(), cap, case.pay_len as u64);
+                let d = drive(&mut r, case, rd, case.pay_len + 3 + extra, extra);
+                std::mem::forget(r);
+                d
+            }
+            Framing::Close => {
+                let mut r = close_reader(script.handle(), cap);
+                let d = drive(&mut r, case, rd, case.pay_len + 3 + extra, extra);
+                std::mem::forget(r);
+                d
+            }
+        }
+    }
+
+    /// The wire is cut after `cut` bytes (cut < frame_len) and the transport then produces `fault`
+    /// for ever (resume == false) or once, continuing with the rest of the wire (resume == true).
+    pub fn c02_cut(framing: Framing, case: &Case, cut: usize, fault: Fault, resume: bool, seg: Seg, cap: usize, rd: usize) {
+        let mut script = case.transport(cut, seg, fault);
+        if resume {
+            script.resume_len = case.wire_len;
+        }
+        let d = drive_framing(framing, &mut script, case, cap, rd, 2);
+        assert!(!d.bad_byte, "C02: bytes handed out are not a prefix of the payload (fabricated byte)");
+        assert!(!d.overrun, "C02: more bytes handed out than the payload holds");
+        let incomplete = !resume && !(framing == Framing::Close && fault == Fault::Eof);
+        if incomplete {
+            assert!(!d.eof_before_err, "C02: truncated body reported as cleanly finished (Ok(0) without an error)");
+            assert!(d.err, "C02: truncated body: no read returned an error");
+            assert!(d.delivered <= case.present_at[cut], "C02: delivered bytes that never arrived");
+        } else if resume && fault == Fault::Eof {
+            // an EOF in mid-body followed by more data cannot happen on a real socket: not asserted
+        } else if resume {
+            // transient error (timed-out / would-block read), the peer then continues: whatever
+            // the reader does afterwards, it must not report a clean end before all payload bytes
+            // were handed out
+            assert!(!(d.eof && !d.err), "C02: transient read error swallowed");
+            if d.eof_before_err {
+                assert!(false, "C02: clean end-of-body reported before the transient error");
+            }
+        }
+        kani::cover!(d.err, "error path taken");
+    }
+
+    /// all cut offsets of one shape in one harness (concrete loop; every iteration is an
+    /// independent reader over an independent transport)
+    pub fn c02_all_cuts(framing: Framing, case: &Case, fault: Fault, resume: bool, seg: Seg, cap: usize, rd: usize) {
+        c02_cuts(framing, case, fault, resume, seg, cap, rd, 0, usize::MAX);
+    }
+
+    /// cut offsets from..min(to, frame_len)
+    pub fn c02_cuts(framing: Framing, case: &Case, fault: Fault, resume: bool, seg: Seg, cap: usize, rd: usize, from: usize, to: usize) {
+        let mut cut = from;
+        while cut < case.frame_len && cut < to {
+            c02_cut(framing, case, cut, fault, resume, seg, cap, rd);
+            cut += 1;
+        }
+        kani::cover!(true, "must: all cut offsets explored");
+    }
+
+    macro_rules! c02_chunked {
+        ($name:ident, $shape:expr, $fault:expr, $resume:expr, $seg:expr, $cap:expr, $rd:expr, $from:expr, $to:expr) => {
+            verif_harness!($name, 40, {
+                let shape: &[Ch] = &$shape;
+                let case = Case::chunked(shape, 0, false);
+                assert!($from < case.frame_len, "harness shape error: empty cut range");
+                c02_cuts(Framing::Chunked, &case, $fault, $resume, $seg, $cap, $rd, $from, $to);
+            });
+        };
+    }
+    macro_rules! c02_raw {
+        ($name:ident, $framing:expr, $n:expr, $fault:expr, $resume:expr, $seg:expr, $cap:expr, $rd:expr, $from:expr, $to:expr) => {
+            verif_harness!($name, 40, {
+                let case = Case::raw($n, 0);
+                assert!($from < case.frame_len, "harness shape error: empty cut range");
+                c02_cuts($framing, &case, $fault, $resume, $seg, $cap, $rd, $from, $to);
+            });
+        };
+    }
+
+    include!("gen_c02.rs");
+
+    verif_harness!(c02_qtwin_chunked, 40, {
+        let case = Case::chunked(&[ch(3)], 0, false);
+        c02_all_cuts(Framing::Chunked, &case, Fault::Reset, false, Seg::Whole, 8, 2);
+        assert!(false, "twin: must be reported as FAILURE");
+    });
 }
